@@ -112,6 +112,28 @@ def run(ctx):
                         zero_ok = is_const(on_false[0], 0)
             ctx.verdict(zero_ok, 'C18.others-zero', 'C18.others-zero:%s' % q.top(f.name),
                         'entries not kept are set to the constant 0.0', site, 'value on the other edge is %s0.0' % ('' if zero_ok else 'not '))
+    # --- zeroing only when something survives (independent of how the sum is written)
+    rule = 'C18.zero-only-with-survivors'
+    zero_sites = []
+    for bi, st, pl, rhs in q.stores(f):
+        if st['pl'].get('ty') != 'f64':
+            continue
+        r = facts.strip_refs(rhs)
+        if is_const(r, 0):
+            zero_sites.append(bi)
+        elif r[0] == 'var':
+            for b2, cs2, v2 in q.multi_def_values(f, r[1]):
+                if is_const(v2, 0):
+                    zero_sites.append(b2)
+    for bi in zero_sites:
+        guarded = False
+        for c in f.conds(bi):
+            if c['kind'] in ('Gt', 'Lt') and c.get('truth') is True and c.get('b') is not None and is_const(c['b'], 0):
+                guarded = True
+            if c['kind'] == 'Eq' and c.get('truth') is False and c.get('b') is not None and is_const(c['b'], 0):
+                guarded = True
+        ctx.verdict(guarded, rule, '%s:%s' % (rule, q.top(f.name)), 'a probability is set to 0.0 only under the test that the surviving mass of its infoset is non-zero (otherwise an infoset in which nothing exceeds the threshold is wiped)',
+                    f.where(bi), 'zero store dominated by a non-zero test of the surviving total: %s' % guarded, breaks='an infoset in which no action exceeds the threshold ends up all-zero: not a distribution')
     # --- partition by the same player's infosets
     rule = 'C18.partition'
     sb = q.calls_named(f, 'split_by_mut')
